@@ -983,6 +983,85 @@ macro_rules! with_replier {
     };
 }
 
+/// A model whose ports carry the unit type and whose input / replier methods take no argument
+/// (the forms `fn(&mut self)`, `async fn(&mut self)` and `async fn(&mut self) -> R`).
+pub struct UnitModel {
+    pings: u32,
+    apings: u32,
+    out: Output<()>,
+    req: Requestor<(), u32>,
+    seen: Arc<Mutex<Vec<Vec<u32>>>>,
+    _tok: Tracked,
+}
+impl UnitModel {
+    pub fn ping(&mut self) {
+        self.pings += 1;
+    }
+    pub async fn aping(&mut self) {
+        self.apings += 1;
+    }
+    pub async fn ask(&mut self) -> u32 {
+        self.pings * 100 + self.apings
+    }
+    pub async fn fwd(&mut self) {
+        self.out.send(()).await;
+        let r: Vec<u32> = self.req.send(()).await.collect();
+        self.seen.lock().unwrap().push(r);
+    }
+}
+impl Model for UnitModel {}
+
+/// Builds, runs and drops a small bench of `UnitModel`s (driver side) and compares what it
+/// observes with the expected figures; panics with a description on any difference.
+pub fn run_unit_bench(w: &Arc<W>, threads: usize, rounds: u32) {
+    let seen = Arc::new(Mutex::new(vec![]));
+    let mk = |w: &Arc<W>| UnitModel { pings: 0, apings: 0, out: Output::new(), req: Requestor::new(), seen: seen.clone(), _tok: Tracked::new(w) };
+    let (mut a, b, c) = (mk(w), mk(w), mk(w));
+    let (mba, mbb, mbc): (Mailbox<UnitModel>, Mailbox<UnitModel>, Mailbox<UnitModel>) = (Mailbox::with_capacity(1), Mailbox::with_capacity(1), Mailbox::with_capacity(2));
+    let (aa, ab, ac) = (mba.address(), mbb.address(), mbc.address());
+    let sink: EventBuffer<()> = EventBuffer::with_capacity(3);
+    a.out.connect(UnitModel::ping, &ab);
+    a.out.connect(UnitModel::aping, &ab);
+    a.out.connect(UnitModel::aping, &ac);
+    a.out.connect_sink(&sink);
+    a.req.connect(UnitModel::ask, &ab);
+    a.req.connect(UnitModel::ask, &ac);
+    let mut src: EventSource<()> = EventSource::new();
+    src.connect(UnitModel::ping, &ac);
+    let mut qsrc: QuerySource<(), u32> = QuerySource::new();
+    qsrc.connect(UnitModel::ask, &ab);
+    let init = SimInit::with_num_threads(threads).add_model(a, mba, "a").add_model(b, mbb, "b").add_model(c, mbc, "c");
+    let (mut simu, sched) = init.init(mt(0)).expect("unit bench: init failed");
+    for k in 0..rounds {
+        simu.process_event(UnitModel::fwd, (), &aa).expect("unit bench: process_event failed");
+        sched.schedule_event(Duration::from_nanos(1), UnitModel::ping, (), &ab).expect("unit bench: schedule_event failed");
+        sched.schedule(Duration::from_nanos(1), src.event(())).expect("unit bench: schedule failed");
+        simu.step().expect("unit bench: step failed");
+        // b: one ping + one aping per fwd, one scheduled ping per round; c: one aping per fwd, one source ping per round.
+        let n = k + 1;
+        let got_b = simu.process_query(UnitModel::ask, (), &ab).expect("unit bench: process_query failed");
+        let got_c = simu.process_query(UnitModel::ask, (), &ac).expect("unit bench: process_query failed");
+        assert_eq!(got_b, (2 * n) * 100 + n, "[unit_bench] model b counted pings*100+apings = {} after {} rounds", got_b, n);
+        assert_eq!(got_c, n * 100 + n, "[unit_bench] model c counted pings*100+apings = {} after {} rounds", got_c, n);
+        let (action, mut rx) = qsrc.query(());
+        simu.process(action).expect("unit bench: process failed");
+        let r: Vec<u32> = rx.take().expect("unit bench: no reply iterator").collect();
+        assert_eq!(r, vec![got_b], "[unit_bench] query source replies");
+    }
+    let seen_now = seen.lock().unwrap().clone();
+    assert_eq!(seen_now.len() as u32, rounds, "[unit_bench] number of completed fwd handlers");
+    for (k, r) in seen_now.iter().enumerate() {
+        // At the k-th fwd: b has handled k scheduled pings + (k+1) pings and apings, c k source pings + (k+1) apings.
+        let k = k as u32;
+        assert_eq!(r, &vec![(2 * k + 1) * 100 + k + 1, k * 100 + k + 1], "[unit_bench] replies seen by fwd #{}", k);
+    }
+    let mut sink = sink;
+    let held = (&mut sink).count();
+    assert_eq!(held as u32, rounds.min(3), "[unit_bench] unit events held by the sink of capacity 3");
+    drop(simu);
+    drop(sched);
+}
+
 /// Model of the inner simulations run by `Op::Nested`.
 pub struct Inner {
     w: Arc<W>,
@@ -1159,6 +1238,7 @@ pub struct Built {
     pub init_res: Res,
     pub flavours: Vec<Flavour>,
     pub out_clones: Vec<Vec<Output<Msg>>>,
+    pub threads: usize,
     /// Reply receivers of scheduled query actions, kept unread.
     pub rxs: Vec<nexosim::ports::ReplyReceiver<Reply>>,
 }
@@ -1639,6 +1719,7 @@ pub fn build(spec: &Arc<BenchSpec>, w: &Arc<W>) -> Built {
         init_res: res,
         flavours: spec.nodes.iter().map(|n| n.flavour).collect(),
         out_clones,
+        threads: spec.threads,
         rxs: vec![],
     }
 }
@@ -1690,6 +1771,9 @@ pub enum Cmd {
     /// Adds a connection to an event source held by the driver (possibly after actions of that
     /// source were created or scheduled).
     ConnectSrc { src: usize, conn: Conn },
+    /// Builds, runs and drops a separate bench whose ports carry `()` and whose methods take no
+    /// argument; any difference from the expected figures is reported as a panic of this command.
+    UnitBench { rounds: u32 },
     DropSim,
 }
 
@@ -1757,6 +1841,10 @@ fn exec_cmd_inner(b: &mut Built, cmd: &Cmd) -> Res {
             let fl = b.flavours.clone();
             connect_out(&mut b.out_clones[*node][*port], &[*conn], &b.addrs, &b.bufs, &b.slots, &fl);
             w.log(Ev::ConnectVia { node: *node, port: *port, conn: *conn });
+            return Res::Ok;
+        }
+        Cmd::UnitBench { rounds } => {
+            run_unit_bench(&w, b.threads, *rounds);
             return Res::Ok;
         }
         Cmd::ConnectSrc { src, conn } => {
